@@ -7,6 +7,8 @@ package verifier
 
 import (
 	"crypto/ecdsa"
+	"crypto/ed25519"
+	"encoding/json"
 	"crypto/elliptic"
 	"crypto/rand"
 	"crypto/sha256"
@@ -85,7 +87,46 @@ func TestVerifC19(t *testing.T) {
 		_, err = ctx.verifier.VerifyVP(*p, true, true, nil)
 		return cls(err)
 	}
-	eps := map[string]func(string) string{"verifier.Verify": vcPath, "verifier.VerifyVP": vpPath}
+	// the same two paths when the key that is resolved for the issuer / holder is an Ed25519 key of the wrong length (did:jwk, did:web and
+	// did:key documents can carry one): JSON-LD proofs and JWTs. Input: {"len":<n>,"doc":…}
+	badKeyCtx := map[int]mockContext{}
+	for _, n := range []int{0, 31, 32, 33, 34, 64} {
+		c := newMockContext(t)
+		k := ed25519.PublicKey(make([]byte, n))
+		c.store.EXPECT().GetRevocations(gomock.Any()).Return(nil, ErrNotFound).AnyTimes()
+		c.didResolver.EXPECT().Resolve(gomock.Any(), gomock.Any()).Return(&did.Document{}, nil, nil).AnyTimes()
+		c.keyResolver.EXPECT().ResolveKeyByID(gomock.Any(), gomock.Any(), gomock.Any()).Return(k, nil).AnyTimes()
+		c.keyResolver.EXPECT().ResolveKey(gomock.Any(), gomock.Any(), gomock.Any()).Return("k", k, nil).AnyTimes()
+		badKeyCtx[n] = c
+	}
+	badKeyPath := func(in string) string {
+		var w struct {
+			Len int    `json:"len"`
+			Doc string `json:"doc"`
+			VP  bool   `json:"vp"`
+		}
+		if json.Unmarshal([]byte(in), &w) != nil {
+			return "err:harness"
+		}
+		c, ok := badKeyCtx[w.Len]
+		if !ok {
+			return "err:harness"
+		}
+		if w.VP {
+			p, err := vc.ParseVerifiablePresentation(w.Doc)
+			if err != nil {
+				return "err:parse"
+			}
+			_, err = c.verifier.VerifyVP(*p, true, true, nil)
+			return cls(err)
+		}
+		cr, err := vc.ParseVerifiableCredential(w.Doc)
+		if err != nil {
+			return "err:parse"
+		}
+		return cls(c.verifier.Verify(*cr, true, true, nil))
+	}
+	eps := map[string]func(string) string{"verifier.Verify": vcPath, "verifier.VerifyVP": vpPath, "verifier.wrong-length-ed25519-key": badKeyPath}
 
 	replay, isReplay := c19ReadOps()
 	for _, op := range replay {
@@ -127,6 +168,17 @@ func TestVerifC19(t *testing.T) {
 				}
 			}
 			run("verifier.Verify", compact(hdr, `{"iss":`+iss+`,"sub":"did:nuts:B8PUHs2AUHbFF1xLLK4eZjgErEcMXHxs68FteY7NDtCY","nbf":1704067200,"exp":2019686400,"jti":"did:nuts:CuE3qeFGGLhEAS3gKzhMCeqd1dGa9at5JCbmCfyMU2Ey#1","vc":`+string(root.bytes())+`}`), "jwt-issuer-not-a-did")
+		}
+	}
+	for n := range badKeyCtx {
+		eddsaHdr := `{"alg":"EdDSA","typ":"JWT","kid":"did:nuts:CuE3qeFGGLhEAS3gKzhMCeqd1dGa9at5JCbmCfyMU2Ey#key-1"}`
+		jwtVC := compact(eddsaHdr, `{"iss":"did:nuts:CuE3qeFGGLhEAS3gKzhMCeqd1dGa9at5JCbmCfyMU2Ey","sub":"did:nuts:B8PUHs2AUHbFF1xLLK4eZjgErEcMXHxs68FteY7NDtCY","nbf":1704067200,"exp":2019686400,"jti":"did:nuts:CuE3qeFGGLhEAS3gKzhMCeqd1dGa9at5JCbmCfyMU2Ey#1","vc":{"@context":["https://www.w3.org/2018/credentials/v1","https://nuts.nl/credentials/v1"],"type":["VerifiableCredential","NutsOrganizationCredential"],"credentialSubject":{"id":"did:nuts:B8PUHs2AUHbFF1xLLK4eZjgErEcMXHxs68FteY7NDtCY","organization":{"name":"x","city":"y"}}}}`)
+		for _, d := range []struct {
+			doc string
+			vp  bool
+		}{{c19VC, false}, {c19VP(), true}, {jwtVC, false}} {
+			b, _ := json.Marshal(map[string]any{"len": n, "doc": d.doc, "vp": d.vp})
+			run("verifier.wrong-length-ed25519-key", string(b), "ed25519-length")
 		}
 	}
 	jsystematic([]byte(c19VC), func(b []byte, kind string) { run("verifier.Verify", string(b), kind) })
